@@ -40,6 +40,9 @@ class MaterializeReshapeShape(RewriteRuleClassBase):
         dims = list(output.shape)
         sym_count = sum(1 for d in dims if not isinstance(d, int))
 
+        if sym_count == 1 and any(isinstance(d, int) and d == 0 for d in dims):
+            # A -1 cannot be inferred (and is not allowed by allowzero=1) beside a zero dim.
+            return check_result.fail("Output shape has a symbolic dim and a zero dim.")
         if sym_count <= 1:
             self._new_dims = [-1 if not isinstance(d, int) else int(d) for d in dims]
         else:
